@@ -286,6 +286,50 @@ class Translator:
         except TranslateError:
             raise
 
+    def falsy_atoms(self):
+        return [self.T.a(a) for a in ("False", "0", "0.0", "''", '""') if a in self.T.atom or a in ("False", "0")]
+
+    def cond(self, t, cx):
+        """Translate the test of an `if`: `x is [not] None`, `not c`, or Python truthiness of an expression."""
+        if isinstance(t, ast.UnaryOp) and isinstance(t.op, ast.Not):
+            return ("neg", self.cond(t.operand, cx))
+        if isinstance(t, ast.Compare) and len(t.ops) == 1 and const_atom(t.comparators[0]) == "None":
+            e = self.expr(t.left, cx)
+            if isinstance(t.ops[0], ast.IsNot):
+                return ("notNone", e)
+            if isinstance(t.ops[0], ast.Is):
+                return ("neg", ("notNone", e))
+        if isinstance(t, (ast.Name, ast.Attribute, ast.Call, ast.IfExp)):
+            e = self.expr(t, cx)
+            if e[0] == "isnone":
+                return ("neg", ("notNone", e[1]))
+            return ("truthy", e)
+        raise TranslateError(f"condition `{ast.unparse(t)}` in {cx['cname']}.{cx['meth']}")
+
+    def reads_expr(self, e):
+        k = e[0]
+        if k == "self":
+            return {("self", e[1])}
+        if k == "cls":
+            return {("cls", e[1], e[2])}
+        if k == "ite":
+            return self.reads_expr(e[1]) | self.reads_expr(e[2]) | self.reads_expr(e[3])
+        return set()
+
+    def reads_cond(self, c):
+        if c[0] == "neg":
+            return self.reads_cond(c[1])
+        return self.reads_expr(c[1])
+
+    def writes(self, s_):
+        if s_[0] == "setSelf":
+            return {("self", s_[1])}
+        if s_[0] == "setCls":
+            return {("cls", s_[1], s_[2])}
+        if s_[0] == "guard":
+            return self.writes(s_[2])
+        return set()
+
     # ------------------------------------------------------------ statements
     def stmts(self, body, cx, out):
         """Translate a method body; returns True when a `return` ended it."""
@@ -304,6 +348,8 @@ class Translator:
                 v = st.value
                 if v is None or const_atom(v) in ("False", "None"):
                     return True
+                if isinstance(v, ast.Name) and cx["env"].get(v.id) in (("const", "None"), ("const", "False")):
+                    return True
                 if isinstance(v, ast.Call):
                     self.call_stmt(v, cx, out, returns=True)
                     return True
@@ -311,7 +357,14 @@ class Translator:
             if isinstance(st, ast.Assign) and len(st.targets) == 1:
                 t = st.targets[0]
                 if isinstance(t, ast.Name):
-                    cx["env"][t.id] = self.expr(st.value, cx)
+                    v = st.value
+                    if isinstance(v, ast.Call) and isinstance(v.func, ast.Attribute) and v.func.attr in (
+                            "__enter__", "__exit__", "_set_state", "_set_value", "_set_num_probe_vectors"):
+                        # a call executed for its effect whose (None/False) result is kept in a local
+                        self.call_stmt(v, cx, out)
+                        cx["env"][t.id] = ("const", "None")
+                        continue
+                    cx["env"][t.id] = self.expr(v, cx)
                     continue
                 if isinstance(t, ast.Attribute):
                     if isinstance(t.value, ast.Name) and t.value.id == "self" and cx["self_ok"]:
@@ -327,26 +380,29 @@ class Translator:
                             continue
                         out.append(("setCls", cx["cname"], t.attr, self.expr(st.value, cx)))
                         continue
-            if isinstance(st, ast.If) and not st.orelse:
+            if isinstance(st, ast.If):
                 t = st.test
-                if isinstance(t, ast.Compare) and len(t.ops) == 1:
-                    if isinstance(t.ops[0], ast.IsNot) and const_atom(t.comparators[0]) == "None":
-                        c = self.expr(t.left, cx)
-                        inner = []
-                        if self.stmts(st.body, cx, inner):
-                            raise TranslateError("return inside guarded block")
-                        for s in inner:
-                            out.append(("guard", c, s))
-                        continue
-                    if isinstance(t.ops[0], ast.NotIn) and isinstance(t.comparators[0], ast.Set) \
-                            and len(st.body) == 1 and isinstance(st.body[0], ast.Raise):
-                        if cx["meth"] != "__init__":
-                            raise TranslateError("raise outside __init__")
-                        allowed = [const_atom(e) for e in t.comparators[0].elts]
-                        if any(a is None for a in allowed):
-                            raise TranslateError("non-constant allowed set")
-                        out.append(("raiseUnlessIn", self.expr(t.left, cx), allowed))
-                        continue
+                # `if e not in {consts}: raise` (constructor validation)
+                if not st.orelse and isinstance(t, ast.Compare) and len(t.ops) == 1 and isinstance(t.ops[0], ast.NotIn) \
+                        and isinstance(t.comparators[0], ast.Set) and len(st.body) == 1 and isinstance(st.body[0], ast.Raise):
+                    if cx["meth"] != "__init__":
+                        raise TranslateError("raise outside __init__")
+                    allowed = [const_atom(e) for e in t.comparators[0].elts]
+                    if any(a is None for a in allowed):
+                        raise TranslateError("non-constant allowed set")
+                    out.append(("raiseUnlessIn", self.expr(t.left, cx), allowed))
+                    continue
+                cond = self.cond(t, cx)
+                for branch, c in ((st.body, cond), (st.orelse, ("neg", cond))):
+                    inner = []
+                    if self.stmts(branch, cx, inner):
+                        raise TranslateError("return inside a conditional block")
+                    for s_ in inner:
+                        # the branch must not change what its own condition reads (else flattening into guards is unsound)
+                        if self.writes(s_) & self.reads_cond(cond):
+                            raise TranslateError(f"branch of `if {ast.unparse(t)}` writes a location its condition reads")
+                        out.append(("guard", c, s_))
+                continue
             raise TranslateError(f"statement `{ast.unparse(st)[:80]}` in {cx['cname']}.{cx['meth']}")
         return False
 
@@ -506,6 +562,15 @@ class Translator:
             return f"(.ifNotNone {self.lexpr(e[1])} {self.lexpr(e[2])} {self.lexpr(e[3])})"
         raise TranslateError(f"emit {e}")
 
+    def lcond(self, c):
+        if c[0] == "neg":
+            return f"(.neg {self.lcond(c[1])})"
+        if c[0] == "notNone":
+            return f"(.notNone {self.lexpr(c[1])})"
+        if c[0] == "truthy":
+            return f"(.truthy {self.lexpr(c[1])} [{', '.join(str(a) for a in self.falsy_atoms())}])"
+        raise TranslateError(f"emit cond {c}")
+
     def lstmt(self, s):
         k = s[0]
         if k == "setSelf":
@@ -513,7 +578,7 @@ class Translator:
         if k == "setCls":
             return f".setCls {self.T.c(s[1])} {self.T.f(s[2])} {self.lexpr(s[3])}"
         if k == "guard":
-            return f".guardNotNone {self.lexpr(s[1])} ({self.lstmt(s[2])})"
+            return f".guard {self.lcond(s[1])} ({self.lstmt(s[2])})"
         if k == "warn":
             return ".warn"
         if k == "raiseUnlessIn":
